@@ -6,6 +6,7 @@ package harness
 
 import (
 	"bufio"
+	"fmt"
 	"encoding/json"
 	"os"
 	"runtime"
@@ -48,7 +49,7 @@ var (
 	measuring  bool
 	ms         runtime.MemStats
 	m0         uint64
-	lastAllocs int
+	lastAllocs = -1 // only written in measuring mode (single goroutine): concurrent drivers never touch it
 )
 
 // EnableMeasure switches per-call malloc counting on (single P, GC off: the counter is then exact).
@@ -57,8 +58,8 @@ func EnableMeasure() {
 	runtime.GOMAXPROCS(1)
 }
 func begin() {
-	lastAllocs = -1
 	if measuring {
+		lastAllocs = -1
 		runtime.ReadMemStats(&ms)
 		m0 = ms.Mallocs
 	}
@@ -158,6 +159,15 @@ func (w *World) emit(e *Event) {
 	}
 	w.Events++
 	w.OpCount[e.Op]++
+	// distinct executed cases: (operation, arguments, element type, shape of the operated view, outcome)
+	if e.Op != "Reset" {
+		key := fmt.Sprintf("%s|%v|%s|%s|%s|%d|%v", e.Op, e.Args, e.Ty, e.Fn, e.Res, e.Cnt, e.Lens)
+		if len(e.Args) > 0 && e.Op != "Alloc" && e.Op != "ChannelLength" && e.Args[0] >= 1 && e.Args[0] <= len(e.Obs) {
+			o := e.Obs[e.Args[0]-1]
+			key += fmt.Sprintf("|%d|%d|%d|%d", o.Ch, o.Len, o.Cap, o.Bd)
+		}
+		w.Cases[key] = struct{}{}
+	}
 }
 
 // Huge stands for any integer beyond +-2^30 (TLC integers are 32-bit and its JSON reader truncates
@@ -187,7 +197,9 @@ func run(f func()) (res string) {
 			res = "panic"
 		}
 	}()
-	lastAllocs = -1
+	if measuring {
+		lastAllocs = -1
+	}
 	f()
 	return "ok"
 }
@@ -337,10 +349,12 @@ func (w *World) Convert(fn string, s, d int) string {
 	return res
 }
 
-func (w *World) ChanIndex(v, c, i int) {
+// ChanIndex asks the view of channel c for the buffer index of i; arg is the (ignored by the
+// property) channel argument of C.BufferIndex.
+func (w *World) ChanIndex(v, c, i, arg int) {
 	cnt := -1
-	res := run(func() { cnt = w.Views[v].ChanIndex(c, i) })
-	w.emit(&Event{Op: "ChanIndex", Args: []int{v + 1, c, i}, Res: res, Cnt: cnt, Allocs: lastAllocs})
+	res := run(func() { cnt = w.Views[v].ChanIndex(c, i, arg) })
+	w.emit(&Event{Op: "ChanIndex", Args: []int{v + 1, c, i, arg}, Res: res, Cnt: cnt, Allocs: lastAllocs})
 }
 
 func (w *World) ChanSample(v, c, i int) {
